@@ -44,6 +44,7 @@ func (c12Driver) Gen(seed uint64, tier string) *simrt.Spec {
 	points := c12Points[:1+r.Intn(len(c12Points))]
 	// contents submitted so far per name, to produce identical duplicates on purpose
 	submitted := map[string][]string{}
+	crossUsed := false
 	conflicted := map[string]bool{}
 	fileBody := func() string {
 		var sb strings.Builder
@@ -84,6 +85,22 @@ func (c12Driver) Gen(seed uint64, tier string) *simrt.Spec {
 				body := fileBody()
 				if prev := submitted[nm]; len(prev) > 0 && r.Chance(1, 3) {
 					body = prev[r.Intn(len(prev))] // identical duplicate
+				} else if len(prev) > 0 && !crossUsed && r.Chance(1, 4) {
+					// once per history: a later file of an existing name carries the text of the first file of
+					// ANOTHER name - equal text under different names is a conflict, not a duplicate
+					var others []string
+					for o, subs := range submitted {
+						if o != nm && len(subs) == 1 && !conflicted[o] {
+							others = append(others, o)
+						}
+					}
+					sort.Strings(others)
+					if len(others) > 0 {
+						o := others[r.Intn(len(others))]
+						body = submitted[o][0]
+						crossUsed = true
+						conflicted[o] = true // no further submissions play with that text
+					}
 				}
 				if len(submitted[nm]) > 0 && body != submitted[nm][0] {
 					conflicted[nm] = true
